@@ -208,3 +208,28 @@ Proof.
 Qed.
 
 End SyncReport.
+
+Section SyncFailure.
+Variable now_z : N -> Z.
+Variable normalize : str -> target.
+Variable chunker : str -> list str.
+Notation sync_one := (sync_one now_z normalize chunker).
+
+(* any recorded error, and any failed source read, makes sync() fail *)
+Theorem failure_is_reported cfg S D ans bits ls ld ft :
+  let r := sync_one cfg S D ans bits ls ld ft in
+  r_errs r <> [] \/ r_src_failed r = true -> r_ok r = false.
+Proof.
+  cbv zeta. unfold Sync.sync_one, fail_result. cbv zeta.
+  repeat match goal with
+         | |- context [match ?x with _ => _ end] =>
+             match x with
+             | rs_errs _ => fail 1
+             | _ => destruct x
+             end
+         end; cbn [r_errs r_src_failed r_ok]; intros [H|H]; try congruence; try discriminate;
+    try (destruct (rs_errs _); [congruence|reflexivity]);
+    try (destruct (rs_errs _); [rewrite H; reflexivity|reflexivity]).
+Qed.
+
+End SyncFailure.
